@@ -72,6 +72,10 @@ pub fn inputs_seq(format: &str, tier: Tier, seq_len: usize) -> Inputs {
         nb.extend(single_edit_neighbours(d, &MARKERS));
     }
     let sequences = dedup_docs(token_sequences(&tokens(format), seq_len));
+    // all short strings over a 10-symbol alphabet (arbitrary inputs)
+    let mut sequences = sequences;
+    sequences.extend(mc_core::generic::all_strings(b"aig012 \nc\x80", tier.pick(4, 6)));
+    let sequences = dedup_docs(sequences);
     Inputs { corpus, neighbours: dedup_docs(nb), sequences }
 }
 
